@@ -100,4 +100,14 @@ variable {α : Type} [Mul α] [OfScientific α] [KOps α] in
     correspondence suite pins the bits (`starting_phase / TAU`, `sin(phase * TAU)`). -/
 def tau : α := (2.0 : α) * KOps.pi
 
+/-! ### the transport state (fields checked against sound/transport.rs by the translator) -/
+
+/-- mirrors: sound/transport.rs::Transport -/
+structure Transport where
+  position : Nat
+  /-- start and (exclusive) end frame of the loop -/
+  loopRegion : Option (Nat × Nat)
+  playing : Bool
+deriving DecidableEq, Repr
+
 end K
